@@ -61,11 +61,13 @@ open C13
 /-- C13 operations (byte strings in hex).
 `c13_sk <b>` / `c13_pk <b>` → `ok`|`err` (model: `Keys.secretAccept` / `Keys.publicAccept`; spec: `leNat < l` / RFC 8032 decoding);
 `c13_pub_of <scalar>` → point; `c13_add <P> <Q>`, `c13_sub <P> <Q>`, `c13_smul <scalar> <P>` → point; all `err` if an operand is
-not an accepted key. For these four POINT operations the comparison is library-vs-reference: the model side (`Model/KeyOps.lean`)
-differs from the spec side only in the operand path (`from_slice` of the operands, then the permissive `point()` of the stored
-bytes — `PANIC` if it fails — against strict RFC 8032 decoding); both sides then call the SAME `Ed.add` / `Ed.sub` / `Ed.smul` /
-`Ed.encodePt` of `Ref/Ed25519.lean`, so on accepted operands they cannot disagree (`C13_add_bytes` … prove that they do not);
-what the reference computes is proved to be the group law (`C13_group_law`).
+not an accepted key. Model side (`Model/KeyOps.lean`): `from_slice` of the operands, then the permissive `point()` of the stored bytes
+(`PANIC` if it fails); `c13_add` / `c13_sub` then go through dalek's Niels-form addition / subtraction transcribed separately
+(`dalekAdd`, `dalekSub`) — a path of its own against the spec side (strict RFC 8032 decoding, `Ed.add` / `Ed.sub`); `c13_smul` /
+`c13_pub_of` and the final compression of all four call the SAME `Ed.smul` / `Ed.encodePt` of `Ref/Ed25519.lean` as the spec side, so
+for scalar multiplication the comparison is library-vs-reference only (model and spec can differ only in the operand path).
+`C13_add_bytes` … prove that the two sides agree on accepted operands; what the reference computes is proved to be the group law
+(`C13_group_law`).
 `c13_sadd <a> <b>`, `c13_smulmul <a> <b>` → scalar (32-byte LE), `c13_smul_u8 <a> <n>` → scalar (`PrivateKey * u8`, n < 256 in
 decimal): model side = dalek's `Scalar52::add` / `Scalar52::mul` transcribed on integers (conditional subtraction, two Montgomery
 reductions), spec side = `(x + y) % l` / `(x * y) % l` — two different computations (`C13_scalar_ops` proves they agree).
